@@ -5,7 +5,7 @@
     of eager / jax.jit / constructor-jit / jax.disable_jit evaluation.  That clause is decided
     by correspondence only (vf/props/C19.py). *)
 From Coq Require Import List Bool Arith ZArith.
-From SV Require Import C19.Cache C19.TVNorm C19.Loss C19.Random C19.Defaults C19.SharedDefault.
+From SV Require Import C19.Cache C19.TVNorm C19.Loss C19.Random C19.Defaults C19.SharedDefault C19.Reattach.
 Import ListNotations.
 
 (** (1) Cache transparency, abstract.  For every object whose calls consult / refresh a keyed
@@ -165,6 +165,20 @@ Theorem C19_percall_default_no_interference :
 Proof. exact percall_no_interference. Qed.
 Print Assumptions C19_percall_default_no_interference.
 
+(** (6) Re-attaching one sub-problem solver object: internal_init rebuilds the derived data on
+    every attachment, so for EVERY attachment history the solver state is a function of the ADMM
+    attached now, and the x-step equals the x-step of a solver attached only to that ADMM.
+    A solver that keeps its data while the operator OBJECTS are the same (identity-keyed cache,
+    ignoring rho_list / f.scale / f.W) does not satisfy this: Reattach.idkeyed_refuted. *)
+Theorem C19_reattach_state_function_of_current :
+  forall (Ops Par Fac Res : Type) (build : Ops -> Par -> Fac) (solve : Fac -> Ops -> Par -> Res)
+         (h : list (admm Ops Par)) (st : option Fac) (a : admm Ops Par),
+    attach_hist Ops Par Fac build st (h ++ [a]) = Some (build (fst a) (snd a)) /\
+    xstep Ops Par Fac Res solve (attach_hist Ops Par Fac build st (h ++ [a])) a
+    = xstep Ops Par Fac Res solve (attach_hist Ops Par Fac build None [a]) a.
+Proof. exact reattach_spec. Qed.
+Print Assumptions C19_reattach_state_function_of_current.
+
 (** ---- non-vacuity ---- *)
 (* a history with changing shapes and dtypes through the fixed logic: rebuilds happen, results are fresh *)
 Example C19_tv_example :
@@ -200,3 +214,11 @@ Example C19_shared_default_example :
   Ls Z (SharedDefault.run Z 0%Z PerCall witness_ops (SharedDefault.empty Z)) = [8%Z; 20%Z] /\
   Ls Z (SharedDefault.run Z 0%Z Shared witness_ops (SharedDefault.empty Z)) = [20%Z; 20%Z].
 Proof. split; [apply wf_empty|]. vm_compute. split; reflexivity. Qed.
+
+(* same operator objects, rho 1 then rho 3: the identity-keyed solver steps with the factor of
+   rho 1, the real logic with the factor of rho 3 *)
+Example C19_reattach_example :
+  fst (keyed_run nat Z Z (Z * Z) w_build w_solve nat fst Nat.eqb w_hist (Cache.empty unit nat Z))
+    = [(1%Z, 1%Z); (1%Z, 3%Z)] /\
+  xstep nat Z Z (Z * Z) w_solve (attach_hist nat Z Z w_build None w_hist) (7, 3%Z) = Some (3%Z, 3%Z).
+Proof. vm_compute. split; reflexivity. Qed.
